@@ -10,6 +10,7 @@ import (
 func init() {
 	verifRegister("VerifC04_EBudget", VerifC04_EBudget)
 	verifRegister("VerifC04_EHeights", VerifC04_EHeights)
+	verifRegister("VerifC04_EExpandBound", VerifC04_EExpandBound)
 	verifRegister("VerifC04_ECancel", VerifC04_ECancel)
 	verifRegister("VerifC04_ECtxSeq", VerifC04_ECtxSeq)
 	verifRegister("VerifC04_EFresh", VerifC04_EFresh)
@@ -153,6 +154,53 @@ func VerifC04_EFresh() {
 
 // Physical height / evaluator nesting / tail iterations / macro expansion limits: never exceeded,
 // catchable, runtime usable afterwards.
+// The macro-expansion bound holds through EVERY route that expands macros -- evaluating the call,
+// the macroexpand builtin, eval of a quoted call -- and for every way the bound is configured: an
+// explicit limit L (symbolic, 2..maxlimit) or the DEFAULT (nothing configured: the documented 1000).
+// A macro that expands to a call of itself for ever is refused with an ordinary catchable error after
+// a bounded amount of work, the expansion count never exceeds the bound, and the runtime is usable.
+func VerifC04_EExpandBound() {
+	route := vConcInt(vndChoice("route", 4))
+	dflt := vndBool("default")
+	lim := 1000
+	ps := &probeState{}
+	var env *lisp.LEnv
+	if dflt {
+		env = newEnv(ps, lisp.WithMaxSteps(1<<40))
+	} else {
+		lim = vndInt("limit")
+		vAssume(lim >= 2)
+		vAssume(lim <= vParam("maxlimit", 8))
+		lim = vConcInt(lim)
+		env = newEnv(ps, lisp.WithMaxMacroExpansionDepth(lim), lisp.WithMaxSteps(1<<40))
+	}
+	rd := env.LoadString("defs", "(set 'expansions 0) (defmacro forever () (set 'expansions (+ expansions 1)) '(forever))")
+	vAssert(rd.Type != lisp.LError, "definitions load")
+	body := []string{
+		"(forever)",
+		"(macroexpand '(forever))",
+		"(eval '(forever))",
+		"(eval (macroexpand '(forever)))",
+	}[route]
+	vInstrBound(100000000)
+	r := env.LoadString("p", "(handler-bind ((condition (lambda (c &rest xs) (list 'caught c)))) "+body+")")
+	vObserve("route", body)
+	vObserve("outcome", outcome(r))
+	vAssert(r.Type != lisp.LError, "exceeding the macro-expansion bound is an ordinary, catchable error: "+outcome(r))
+	vAssert(len(r.Cells) == 2 && r.Cells[0].Str == "caught", "the handler received it")
+	vAssert(r.Cells[1].Str != lisp.CondStepLimitExceeded && r.Cells[1].Str != "internal-panic", "it is the expansion bound that stops the chain, not another limit: "+outcome(r))
+	n := env.LoadString("q", "expansions")
+	vAssert(n.Type == lisp.LInt && n.Int <= lim+1, "the chain is expanded at most bound+1 times: "+outcome(n))
+	after := env.LoadString("q", "(+ 1 2)")
+	vAssert(after.Type == lisp.LInt && after.Int == 3, "the runtime is still usable afterwards")
+	cleanRuntime(env, "user")
+	if dflt {
+		vCover("default")
+	} else {
+		vCover("explicit")
+	}
+}
+
 func VerifC04_EHeights() {
 	kind := vndChoice("kind", 4)
 	lim := vndInt("limit")
